@@ -202,8 +202,15 @@ func (k Keeper) UpdateNSTValidatorListForStaker(ctx sdk.Context, assetID, staker
 		if stakerExists == stakerAddr {
 			if newBalance.Balance <= 0 {
 				stakerList.StakerAddrs = append(stakerList.StakerAddrs[:idx], stakerList.StakerAddrs[idx+1:]...)
-				valueStakerList = k.cdc.MustMarshal(&stakerList)
-				store.Set(keyStakerList, valueStakerList)
+				if len(stakerList.StakerAddrs) == 0 {
+					// the last staker of this asset left: remove the list entry as well, so that the
+					// asset is left with neither staker infos nor a staker list (an empty list without
+					// infos is rejected by the genesis validation of an exported state)
+					store.Delete(keyStakerList)
+				} else {
+					valueStakerList = k.cdc.MustMarshal(&stakerList)
+					store.Set(keyStakerList, valueStakerList)
+				}
 			}
 			exists = true
 			stakerInfo.StakerIndex = int64(idx)
